@@ -84,7 +84,9 @@ Fixpoint shrink (fuel : nat) (ts : list ty) : option ty :=
           | _, _ => None
           end
       else if forallb (fun t => py_eqb t t0) rest then Some t0
-      else if forallb is_tlist ts then option_map TList (shrink fuel' (map list_arg ts))
+      else if forallb is_tlist ts then
+        (* an empty list (List[Any]) contributes no element type *)
+        option_map TList (shrink fuel' (filter (fun a => negb (is_tany a)) (map list_arg ts)))
       else Some (union_mk (map td2dict ts))
     end
   end.
